@@ -8,6 +8,7 @@
 package dtls
 
 import (
+	"bytes"
 	"crypto/aes"
 	"crypto/cipher"
 	"crypto/hmac"
@@ -30,9 +31,11 @@ import (
 	"testing/synctest"
 	"time"
 
+	dtlsflight "github.com/pion/dtls/v3/internal/flight"
 	dtlsstate "github.com/pion/dtls/v3/internal/state"
 	"github.com/pion/dtls/v3/pkg/crypto/prf"
 	"github.com/pion/dtls/v3/pkg/protocol"
+	"github.com/pion/dtls/v3/pkg/protocol/handshake"
 	"github.com/pion/dtls/v3/pkg/protocol/recordlayer"
 )
 
@@ -157,6 +160,7 @@ type c08Ctx struct {
 	v13    bool // the target runs DTLS 1.3 record framing
 	cidLen int  // length of the target's own connection id
 	cid13  bool // DTLS 1.3 connection id negotiated and required
+	recv   int  // next handshake message_seq the target expects
 }
 
 func c08CtxOf(c *Conn) c08Ctx {
@@ -164,6 +168,7 @@ func c08CtxOf(c *Conn) c08Ctx {
 	ctx := c08Ctx{
 		v13:    common.LocalVersion.Equal(protocol.Version1_3),
 		cidLen: len(common.LocalConnectionIDForInboundRecords()),
+		recv:   dtlsstate.HandshakeRecvSequence(c.state),
 	}
 	if st, ok := c.state.(*dtlsstate.State13); ok {
 		ctx.cid13 = st.CID.Negotiated
@@ -367,6 +372,18 @@ func c08Classify(d []byte, ctx c08Ctx) string {
 				// a lone unprotected alert that is neither fatal nor close_notify: inert while the handshake is
 				// running (conn.go classifyReadLoopError) and once established (handleRecordContent, d95e20d)
 				return "warn"
+			} else if r.ct == 22 && len(recs) == 1 && len(r.body) >= 12 &&
+				12+(int(r.body[9])<<16|int(r.body[10])<<8|int(r.body[11])) == len(r.body) &&
+				(int(r.body[4])<<8|int(r.body[5])) >= ctx.recv+50 &&
+				(int(r.body[9])<<16|int(r.body[10])<<8|int(r.body[11])) < (int(r.body[1])<<16|int(r.body[2])<<8|int(r.body[3])) {
+				// a lone unprotected record with ONE incomplete fragment of a handshake message far ahead of anything
+				// the peer will send: it waits in the reassembly buffer (one slot) and nothing else may happen -
+				// whatever its record sequence number (5206069: unprotected records never move the replay window)
+				return "hsfar"
+			} else if r.ct == 27 && len(recs) == 1 {
+				// a lone unprotected return_routability_check record that decodes: nothing authenticates it, the
+				// property wants it dropped (known finding K-C08-1: the code answers with unexpected_message + error)
+				return "rrc0"
 			} else if r.ct == 23 && len(recs) == 1 {
 				// a lone unprotected application_data record: refused silently in every phase (8aa2dc9)
 				return "app0"
@@ -392,7 +409,8 @@ func c08Classify(d []byte, ctx c08Ctx) string {
 }
 
 func c08IsDrop(class string) bool {
-	return class != "clear" && class != "auth" && class != "warn" && class != "ccs0" && !strings.HasPrefix(class, "alert:")
+	return class != "clear" && class != "auth" && class != "warn" && class != "ccs0" && class != "hsfar" &&
+		class != "slot" && class != "pinlen" && !strings.HasPrefix(class, "alert:")
 }
 
 // ---------------------------------------------------------------- session with monitors
@@ -478,6 +496,12 @@ type c08Res struct {
 	HeapMB   float64  `json:"heap_mb,omitempty"`
 }
 
+type c08Slot struct {
+	typ  byte
+	mseq int
+	n    int
+}
+
 type c08ReadEv struct {
 	payload []byte
 	err     string
@@ -496,6 +520,7 @@ type c08Sess struct {
 	wrote  map[string]bool
 	reader map[string]bool
 	obsIdx map[string]int
+	slots  []c08Slot // gen slot: protected handshake messages the target's peer sends (from a reference session)
 }
 
 func c08StartReader(s *c08Sess, p *vPeer) {
@@ -604,7 +629,7 @@ func (s *c08Sess) inject(target string, data []byte, class, gen string) c08Effec
 	if !c08IsDrop(class) {
 		s.res.DropOnly = false
 	}
-	if !(c08IsDrop(class) || class == "warn" || ((strings.HasPrefix(class, "alert:") || class == "ccs0") && est)) {
+	if !(c08IsDrop(class) || class == "warn" || class == "hsfar" || ((strings.HasPrefix(class, "alert:") || class == "ccs0") && est)) {
 		s.res.Inert = false
 	}
 	k := fmt.Sprintf("%v|%s|%s|%d|%v|%v", est, class, eff.key(), min(info.nrec, 2), fresh, neg)
@@ -613,7 +638,7 @@ func (s *c08Sess) inject(target string, data []byte, class, gen string) c08Effec
 	} else {
 		s.obsIdx[k] = len(s.res.Obs)
 		o := c08Obs{Est: est, V13: ctxV13, Class: class, Gen: gen, Effect: eff, N: 1, NRec: info.nrec, Fresh: fresh, Neg: neg}
-		if !eff.none() || len(s.res.Obs) < 2 || ((c08IsDrop(class) || class == "warn" || class == "ccs0" || strings.HasPrefix(class, "alert:")) && len(data) <= 64) {
+		if !eff.none() || len(s.res.Obs) < 2 || ((c08IsDrop(class) || class == "warn" || class == "hsfar" || class == "ccs0" || strings.HasPrefix(class, "alert:")) && len(data) <= 64) {
 			o.Hex = vHex(data)
 		}
 		s.res.Obs = append(s.res.Obs, o)
@@ -685,6 +710,13 @@ func c08Put24(b []byte, v int) { b[0], b[1], b[2] = byte(v>>16), byte(v>>8), byt
 func c08FreshSeq(rng *vRand, d []byte) {
 	// record sequence number: fresh, so that the anti-replay window does not hide the mutant
 	d[5], d[6] = 0, 0
+	if rng.chance(50) {
+		// small and unused: just ahead of what the genuine sender has used (a tree whose epoch-0 window moves is
+		// not blinded by such a record, so what the CONTENT does stays visible there)
+		binary.BigEndian.PutUint32(d[7:], uint32(36+rng.intn(24))) //nolint:gosec
+
+		return
+	}
 	binary.BigEndian.PutUint32(d[7:], uint32(0x10000+rng.intn(1<<28))) //nolint:gosec
 }
 
@@ -1120,6 +1152,16 @@ var c08Corpus = []c08CorpusItem{ //nolint:gochecknoglobals
 	{"ccs-epoch2-valid", "14fefd000200000000f00f000101"},
 	{"ccs-epoch0-valid", "14fefd000000000000f010000101"},
 	{"appdata-epoch0", "17fefd000000000000f0110004deadbeef"},
+	// "=": the record sequence number of the item is kept (small, unused)
+	{"=F78-short-serverhello-mseq1", "16fefd00000000000000290010020000040001000000000004fefd386d"},
+	{"=F78-short-serverhello-mseq0", "16fefd000000000000002a0010020000040000000000000004fefd386d"},
+	{"rrc-challenge", "1bfefd000000000000f012000900a1a2a3a4a5a6a7a8"},
+	{"rrc-response", "1bfefd000000000000f013000901a1a2a3a4a5a6a7a8"},
+	{"rrc-drop", "1bfefd000000000000f014000902a1a2a3a4a5a6a7a8"},
+	{"=rrc-challenge-smallseq", "1bfefd000000000000002b000900a1a2a3a4a5a6a7a8"},
+	{"rrc-unknown-type", "1bfefd000000000000f015000109"},
+	{"=F70-far-fragment-maxseq", "16fefd0000ffffffffffff000d0b00006401f4000000000001aa"},
+	{"=F70-warning-alert-maxseq", "15fefd0000ffffffffffff0002015a"},
 	{"ccs-epoch1-bad2", "14fefd000100000000f00c00020101"},
 	{"F3-cke-2byte-mseq1", "16fefd000000000000ff02000e1000000200010000000000020000"},
 	{"F3-cke-2byte-mseq2", "16fefd000000000000ff03000e1000000200020000000000020000"},
@@ -1190,7 +1232,7 @@ func (s *c08Sess) batch(c c08Case, rng *vRand, target string, pending []byte) {
 				continue
 			}
 			d := c08Hex(c08Corpus[i].hex)
-			if i > 0 && len(d) >= 13 && d[0] >= 20 && d[0] <= 27 {
+			if i > 0 && len(d) >= 13 && d[0] >= 20 && d[0] <= 27 && !strings.HasPrefix(c08Corpus[i].name, "=") {
 				binary.BigEndian.PutUint32(d[7:], uint32(0x100000+16*i)) //nolint:gosec // increasing: never behind the replay window
 			}
 			s.inject(target, d, c08Classify(d, ctx), "corpus:"+c08Corpus[i].name)
@@ -1245,6 +1287,72 @@ func (s *c08Sess) batch(c c08Case, rng *vRand, target string, pending []byte) {
 			// epoch-0 records out of the window: that would be the known power of an unauthenticated sender, X2)
 			binary.BigEndian.PutUint32(d[7:], uint32(28+4*i+rng.intn(4))) //nolint:gosec
 			s.inject(target, d, c08Classify(d, ctx), "warn")
+		case "seqpoison":
+			// harmless content under a huge record sequence number: the epoch-0 window must not move (F70)
+			sq := []uint64{recordlayer.MaxSequenceNumber, 1 << 47, 1 << 32, recordlayer.MaxSequenceNumber - 1}[(c.Item+i)%4]
+			var d []byte
+			if (c.Item+i)%3 == 0 {
+				d = []byte{21, 0xfe, 0xfd, 0, 0, 0, 0, 0, 0, 0, 0, 0, 2, 1, 0x5a}
+			} else {
+				d = append([]byte{22, 0xfe, 0xfd, 0, 0, 0, 0, 0, 0, 0, 0, 0, 0}, c08HsMsg(11, (ctx.recv+500+i)&0xffff, []byte{1}, 100, 0, 1)...)
+				binary.BigEndian.PutUint16(d[11:], uint16(len(d)-13)) //nolint:gosec
+			}
+			d[5], d[6] = byte(sq>>40), byte(sq>>32)
+			binary.BigEndian.PutUint32(d[7:], uint32(sq)) //nolint:gosec
+			s.inject(target, d, c08Classify(d, ctx), "seqpoison")
+		case "lossinj":
+			// (the datagram is lost by the pump policy) one far-future fragment, small unused record number
+			d := append([]byte{22, 0xfe, 0xfd, 0, 0, 0, 0, 0, 0, 0, 40, 0, 0}, c08HsMsg(4, (ctx.recv+300)&0xffff, []byte{1}, 100, 0, 1)...)
+			d[10] = byte(40 + i)
+			binary.BigEndian.PutUint16(d[11:], uint16(len(d)-13)) //nolint:gosec
+			s.inject(target, d, c08Classify(d, ctx), "lossinj")
+		case "pinlen":
+			// ONE forged first fragment of the NEXT expected message: offset 0, declared length 5000, one byte
+			d := append([]byte{22, 0xfe, 0xfd, 0, 0, 0, 0, 0, 0, 0, 44, 0, 0}, c08HsMsg(byte(c.Item), ctx.recv&0xffff, []byte{1}, 5000, 0, 1)...)
+			binary.BigEndian.PutUint16(d[11:], uint16(len(d)-13)) //nolint:gosec
+			s.inject(target, d, "pinlen", "pinlen")
+		case "slot":
+			// an unprotected record with the message_seq (and type) of a message the genuine peer sends PROTECTED
+			if i >= len(s.slots) {
+				return
+			}
+			sl := s.slots[i]
+			d := append([]byte{22, 0xfe, 0xfd, 0, 0, 0, 0, 0, 0, 0, 46, 0, 0}, c08HsMsg(sl.typ, sl.mseq, make([]byte, sl.n), sl.n, 0, sl.n)...)
+			d[10] = byte(46 + i)
+			binary.BigEndian.PutUint16(d[11:], uint16(len(d)-13)) //nolint:gosec
+			s.inject(target, d, "slot", fmt.Sprintf("slot:type%d", sl.typ))
+		case "flood-frag2":
+			// two datagrams of 600 one-byte fragments of far-future messages each (the count limit is per record)
+			d := []byte{22, 0xfe, 0xfd, 0, 0, 0, 0, 0, 0, 0, byte(60 + i), 0, 0}
+			for k := 0; k < 600; k++ {
+				d = append(d, c08HsMsg(11, (ctx.recv+100+600*i+k)&0xffff, []byte{1}, 50, 0, 1)...)
+			}
+			binary.BigEndian.PutUint16(d[11:], uint16(len(d)-13)) //nolint:gosec
+			s.inject(target, d, "clear", "flood-frag2")
+		case "flood-cache-auth":
+			// the AUTHENTICATED peer sends in-order handshake messages after the handshake (1.3: NewSessionTickets
+			// to the client; 1.2: HelloRequest-typed messages): handled or ignored, never retained
+			if !peer.isHandshakeCompletedSuccessfully() || !tgt.isHandshakeCompletedSuccessfully() {
+				return
+			}
+			var pl c08Plain
+			if ctx.v13 {
+				body := append([]byte{0, 0, 0x0e, 0x10, 0, 0, 0, 0, 8}, rng.bytes(8)...)
+				body = append(body, 0x02, 0x00)
+				body = append(body, rng.bytes(512)...)
+				body = append(body, 0, 0)
+				pl = c08Plain{"nst-valid", protocol.ContentTypeHandshake, c08HsMsg(4, ctx.recv, body, len(body), 0, len(body))}
+			} else {
+				body := rng.bytes(600)
+				pl = c08Plain{"hs-inorder", protocol.ContentTypeHandshake, c08HsMsg(0, ctx.recv+i, body, len(body), 0, len(body))}
+			}
+			d, err := c08Seal(peer, pl, 0)
+			if err != nil {
+				s.res.Note += " seal:" + err.Error()
+
+				return
+			}
+			s.inject(target, d, "auth", "flood-cache-auth")
 		case "flood-queue":
 			// forged records claiming the next epoch: each may take one of the 100 queue slots
 			var d []byte
@@ -1370,7 +1478,37 @@ func c08Run(t *testing.T, out *vOut, c c08Case, trace bool) c08Res {
 		reader: map[string]bool{}, obsIdx: map[string]int{},
 	}
 	rng := newVRand(c.Seed)
+	slots := map[string][]c08Slot{}
+	if c.Gen == "slot" {
+		// reference session of the same variant: which handshake messages does each side send PROTECTED?
+		rc, rs := v.mk()
+		ref := newLab(t, rc, rs)
+		ref.Pump.run(ref.bothDone, 150*time.Second)
+		for _, p := range []*vPeer{ref.Client, ref.Server} {
+			for _, ty := range []handshake.Type{
+				handshake.TypeEncryptedExtensions, handshake.TypeCertificateRequest, handshake.TypeCertificate,
+				handshake.TypeCertificateVerify, handshake.TypeFinished,
+			} {
+				for _, ep := range []uint16{1, 2} {
+					for _, it := range p.Conn.handshakeCache.Pull(dtlsflight.HandshakeCachePullRule{Typ: ty, Epoch: ep, IsClient: p.Name == "client"}) {
+						if it != nil && len(it.Data) >= 12 {
+							// the target of these slots is the OTHER side
+							slots[ref.other(p.Name).Name] = append(slots[ref.other(p.Name).Name],
+								c08Slot{typ: byte(ty), mseq: int(it.MessageSequence), n: min(len(it.Data)-12, 48)})
+						}
+					}
+				}
+			}
+		}
+		ref.close()
+	}
 	ccfg, scfg := v.mk()
+	if c.Gen == "bigpsk" {
+		// F69: a pre-shared key whose pre_master_secret length fields are at the 16-bit edge
+		big := bytes.Repeat([]byte{0xab}, c.Item)
+		ccfg.psk = func([]byte) ([]byte, error) { return big, nil }
+		scfg.psk = func([]byte) ([]byte, error) { return big, nil }
+	}
 	lab := newLab(t, ccfg, scfg)
 	s.lab = lab
 	c08Watch.mu.Lock()
@@ -1378,7 +1516,21 @@ func c08Run(t *testing.T, out *vOut, c c08Case, trace bool) c08Res {
 	c08Watch.mu.Unlock()
 	injected := false
 	lab.Pump.Policy = func(d vDatagram) (vAction, int) {
+		if c.Gen == "lossinj" {
+			if d.Idx == c.Stage && !injected {
+				// this transmission is lost; at that moment its SENDER gets one harmless forged record: it must
+				// still retransmit (F62: the DTLS 1.3 client took such a record for the implicit ACK of its Finished)
+				injected = true
+				res.Target = d.From
+				s.batch(c, rng, d.From, nil)
+
+				return vDrop, 0
+			}
+
+			return vPass, 0
+		}
 		if c.Stage >= 0 && d.Idx == c.Stage && !injected {
+			s.slots = slots[d.To]
 			injected = true
 			res.Target = d.To
 			res.Cache0 = c08CacheLen(lab.peer(d.To).Conn)
@@ -1542,6 +1694,31 @@ func c08Cases(seed uint64, thorough bool) []c08Case {
 				for k := 0; k < 3; k++ { // established: warning / fatal / close_notify mixes
 					add(v.Name, -1, "warn", 4)
 					cases[len(cases)-1].Item = k
+				}
+			}
+			if r == 0 {
+				for st := -1; st <= maxStage; st++ {
+					// F70: harmless content under huge record sequence numbers, once and twice
+					add(v.Name, st, "seqpoison", 1+(st+1)%2)
+					cases[len(cases)-1].Item = st + 1
+					if st >= 0 {
+						// F62 and relatives: datagram #st is lost and its sender gets a harmless forged record
+						add(v.Name, st, "lossinj", 1)
+						// K-C08-2: the slot of a message the peer sends protected; K-C08-3b: the next message's length pinned
+						add(v.Name, st, "slot", 2)
+						add(v.Name, st, "pinlen", 1)
+						cases[len(cases)-1].Item = []int{1, 2, 11, 16, 20, 8}[st%6]
+					}
+				}
+				add(v.Name, -1, "flood-cache-auth", 300)
+				add(v.Name, -1, "flood-cache-auth", 300)
+				add(v.Name, 0, "flood-frag2", 2)
+				add(v.Name, 2, "flood-frag2", 2)
+			}
+			if r == 0 && v.Name == "psk-gcm" {
+				for _, l := range []int{65531, 65532, 65533, 65535} {
+					add(v.Name, 99, "bigpsk", 0)
+					cases[len(cases)-1].Item = l
 				}
 			}
 			add(v.Name, -1, "raw", 12)
